@@ -14,6 +14,8 @@
    * `accounted_step`        — every stream matching a tag with an attached converter is cached or
      queued, in every reachable state; with C09 (`NoStuck`: a non-empty queue means a job is
      running) this gives `eventually_converted` at quiescence.
+     (ADDED hypothesis `MatBounded`: tags match existing streams only; it is itself an invariant,
+     `matInv_step`, for payloads that report existing streams only, `MatOK`.)
    * `detach_stops`          — after a converter is detached from a tag, streams matched only by that
      tag are no longer queued for it.
   Not expressible: a conversion that is still running inside the job goroutine while an import
@@ -24,6 +26,7 @@ import Pk.Model.Manager
 import Pk.Props.C06
 import Pk.Props.C10
 import Pk.Proofs.MgrConv
+import Pk.Proofs.MgrConvMat
 
 namespace Pk.Props.C16
 open Pk.Mgr
@@ -38,8 +41,8 @@ theorem import_drops_changed (s : St) (st : Started) (processed usednew : Nat)
     (hj : s.jImport.isSome) (hcr : created ≠ []) (hc : c ∈ s.convs)
     (hid : id ∈ upd ∨ id ∈ rst)
     (hcached : id ∈ cachedOf (step s (.importDone processed usednew created upd rst add) st).1 c) :
-    s.convert = false ∧ (step s (.importDone processed usednew created upd rst add) st).1.convert = true := by
-  sorry
+    s.convert = false ∧ (step s (.importDone processed usednew created upd rst add) st).1.convert = true :=
+  Pk.Proofs.MgrConv.import_drops' s st processed usednew created upd rst add c id hj hcr hc hid hcached
 
 /-- every existing stream that matches a tag with converter `c` attached is cached or queued -/
 def Accounted (s : St) : Prop :=
@@ -51,25 +54,82 @@ def ConvsWF (s : St) : Prop := ∀ n t, sget s.tags n = some t → ∀ c ∈ t.c
 
 theorem convsWF_step (s : St) (e : Ev) (st : Started) (hw : C06.TagsWF s) (h : ConvsWF s) :
     ConvsWF (step s e st).1 := by
-  sorry
+  have _ := hw
+  exact (Pk.Proofs.MgrConv.step_ac (b := False) s e st ⟨h, False.elim⟩ False.elim).1
+
+/-- the matches of every tag are existing streams -/
+-- ADDED: needed by `accounted_step` (see there)
+def MatBounded (s : St) : Prop := ∀ n t, sget s.tags n = some t → ∀ id ∈ t.mat, id < s.next
 
 theorem accounted_step (s : St) (e : Ev) (st : Started)
     (hw : C06.TagsWF s) (hcw : ConvsWF s) (hcov : C10.Covered s) (hl : C13.CountInv s)
-    (hok : C10.EvOK s e) (h : Accounted s) :
+    (hok : C10.EvOK s e) (h : Accounted s)
+    -- ADDED: without it the statement is false: a tag with a converter attached whose matches
+    -- contain an id ≥ `next` (e.g. a mark created as `id:N` with N = next; the model's `addTag`
+    -- and `tagDone` payloads are not bounded either) is vacuously accounted; the import that
+    -- creates stream N raises `next` without queueing N for the converter (it is only queued
+    -- when the tagging job triggered by the import completes).
+    (hmb : MatBounded s) :
     Accounted (step s e st).1 := by
-  sorry
+  have _ := hw
+  refine (Pk.Proofs.MgrConv.step_ac (b := True) s e st ⟨hcw, fun _ => ⟨h, hcov⟩⟩ (fun _ => ?_)).2 trivial
+  cases e with
+  | importDone processed usednew created upd rst add =>
+    obtain ⟨hfresh, hpay⟩ := hok
+    refine ⟨hmb, ?_, ⟨hfresh.1, fun o ho => (hfresh.2 o ho).2⟩, ?_⟩
+    · intro jn held hj f hf
+      have h1 := hl.1 f
+      have hpos : 0 < s.idx.count f := List.count_pos_iff.2 hf
+      rw [h1]
+      simp only [C13.holders, C13.jobHeld, hj, Option.map_some, Option.getD_some, List.count_append]
+      omega
+    · intro jn held hj
+      obtain ⟨h1, _, h3⟩ := hpay jn held hj
+      exact ⟨h1, h3⟩
+  | _ => trivial
+
+/-! ### `MatBounded` is an invariant (ADDED: so that the extra hypothesis of `accounted_step` can be
+    discharged along every history whose payloads report existing streams only) -/
+
+/-- ADDED: inductive form of `MatBounded`: also the snapshot held by the running tagging job is
+    bounded (its matches are published by `tagDone`) -/
+def MatInv (s : St) : Prop :=
+  (∀ nt ∈ s.tags, ∀ id ∈ nt.2.mat, id < s.next) ∧
+  ∀ n snap held, s.jTag = some (n, snap, held) → ∀ id ∈ snap.mat, id < s.next
+
+/-- ADDED: payload contract: a search result and the id list of a new mark name existing streams -/
+def MatOK (s : St) : Ev → Prop
+  | .tagDone _ result => ∀ id ∈ result, id < s.next
+  | .addTag _ _ _ f => ∀ id ∈ f.ids, id < s.next
+  | _ => True
+
+theorem matInv_bounded (s : St) (h : MatInv s) : MatBounded s :=
+  fun n t ht => h.1 (n, t) (Pk.Proofs.MgrConv.sget_mem _ _ _ ht)
+
+theorem matInv_step (s : St) (e : Ev) (st : Started) (h : MatInv s) (hok : C10.EvOK s e)
+    (hm : MatOK s e) : MatInv (step s e st).1 := by
+  refine Pk.Proofs.MgrConv.mi_step s e st h ?_
+  cases e with
+  | importDone processed usednew created upd rst add =>
+    intro jn held hj
+    exact Nat.le_of_eq (hok.2 jn held hj).1.symm
+  | tagDone name result => exact hm
+  | addTag name color defn f => exact hm
+  | _ => trivial
 
 /-- at quiescence (nothing queued) every matching stream has output -/
 theorem eventually_converted (s : St) (h : Accounted s) (hq : ∀ c, queuedOf s c = [])
     (n : String) (t : Tag) (ht : sget s.tags n = some t) (c : String) (hc : c ∈ t.convs)
     (id : Nat) (hm : id ∈ t.mat) (hid : id < s.next) : id ∈ cachedOf s c := by
-  sorry
+  rcases h n t ht c hc id hm hid with h1 | h1
+  · exact h1
+  · rw [hq c] at h1; simp at h1
 
 /-- detaching stops further runs for streams only this tag matched -/
 theorem detach_stops (s : St) (n c : String) (t : Tag) (hw : C06.TagsWF s)
     (ht : sget s.tags n = some t) (id : Nat) (hm : id ∈ t.mat)
     (hothers : ∀ n2 t2, sget s.tags n2 = some t2 → n2 ≠ n → c ∈ t2.convs → id ∉ t2.mat) :
-    id ∉ queuedOf (detachConv s n c) c := by
-  sorry
+    id ∉ queuedOf (detachConv s n c) c :=
+  Pk.Proofs.MgrConv.detach_stops' s n c t hw ht id hm hothers
 
 end Pk.Props.C16
